@@ -1,4 +1,162 @@
-(* stub: executable interface of group Rates *)
-From Coq Require Import List ZArith.
+(* Executable interface of the "rates" model for the correspondence check:
+   cases are flat lists of integers, results are flat lists of integers;
+   rationals travel as numerator, denominator. *)
+From Coq Require Import List NArith ZArith QArith Qcanon Bool.
+From ACB Require Import Base.Outcome Base.QcExtra Base.Fit Base.Arith
+     Model.Rates Model.RatesCache Model.CrashFs.
 Import ListNotations.
-Definition dispatch (l : list Z) : list Z := [(-9)%Z].
+Local Open Scope Z_scope.
+
+Definition P (T : Type) : Type := list Z -> option (T * list Z).
+Definition pret {T} (v : T) : P T := fun l => Some (v, l).
+Definition pbind {T U} (p : P T) (f : T -> P U) : P U :=
+  fun l => match p l with Some (v, r) => f v r | None => None end.
+Notation "x <~ p ;; k" := (pbind p (fun x => k)) (at level 100, p at next level, right associativity).
+
+Definition pZ : P Z := fun l => match l with z :: r => Some (z, r) | [] => None end.
+Definition pbool : P bool := z <~ pZ ;; pret (negb (z =? 0)).
+Definition pnat : P nat := z <~ pZ ;; pret (Z.to_nat z).
+Definition pQ : P Qc := n <~ pZ ;; d <~ pZ ;; pret (Qcfrac n (Z.to_pos d)).
+Fixpoint prep {T} (n : nat) (p : P T) : P (list T) :=
+  match n with
+  | O => pret []
+  | S k => x <~ p ;; r <~ prep k p ;; pret (x :: r)
+  end.
+Definition plist {T} (p : P T) : P (list T) :=
+  fun l => match l with z :: r => prep (Z.to_nat z) p r | [] => None end.
+Definition popt {T} (p : P T) : P (option T) :=
+  h <~ pbool ;; (if h then x <~ p ;; pret (Some x) else pret None).
+
+Definition oQ (q : Qc) : list Z := [Qnum (this q); Zpos (Qden (this q))].
+
+(* ---- observations: filter day, date option, noon, daily ---- *)
+Definition pjval : P jval :=
+  t <~ pZ ;;
+  match t with
+  | 0 => pret JAbsent
+  | 1 => pret JBad
+  | _ => q <~ pQ ;; pret (JGood q)
+  end.
+Definition pobs : P (Z * obs) :=
+  day <~ pZ ;; d <~ popt pZ ;; n <~ pjval ;; dl <~ pjval ;;
+  pret (day, {| o_date := d; o_noon := n; o_daily := dl |}).
+
+(* the remote of a run: observations of the requested year published before avail *)
+Definition remote_of (truth : list (Z * obs)) (avail : Z) (y : Z) : list obs :=
+  map snd (filter (fun x => (year_of (fst x) =? y) && (fst x <? avail)) truth).
+
+Definition pdrate : P drate := d <~ pZ ;; q <~ pQ ;; pret (d, q).
+Definition pyear : P (Z * list drate) := y <~ pZ ;; l <~ plist pdrate ;; pret (y, l).
+
+Record prun : Type := { pr_today : Z; pr_avail : Z; pr_force : bool; pr_lookups : list Z }.
+Definition prun_p : P prun :=
+  t <~ pZ ;; a <~ pZ ;; f <~ pbool ;; l <~ plist pZ ;;
+  pret {| pr_today := t; pr_avail := a; pr_force := f; pr_lookups := l |}.
+
+Fixpoint olerr (e : lerr) : Z :=
+  match e with
+  | LNotYet => 1 | LCacheMissing => 2 | LNone7 => 3
+  | LLookback x => 10 + olerr x
+  end.
+Definition oanswer (a : sum lerr drate) : list Z :=
+  match a with
+  | inr (d, r) => 1 :: d :: oQ r
+  | inl e => [0; olerr e]
+  end.
+Definition odrates (l : list drate) : list Z :=
+  Z.of_nat (length l) :: flat_map (fun x => fst x :: oQ (snd x)) l.
+
+Definition env_of (truth : list (Z * obs)) (r : prun) : env :=
+  {| e_today := pr_today r; e_force := pr_force r; e_remote := remote_of truth (pr_avail r) |}.
+
+(* entry 0: history.  reval, truth, seed cache, years to dump, runs *)
+Definition run_hist : P (list Z) :=
+  reval <~ pbool ;; truth <~ plist pobs ;; seed <~ plist pyear ;; years <~ plist pZ ;;
+  runs <~ plist prun_p ;;
+  let s0 := {| s_years := []; s_fresh := []; s_cache := seed; s_dl := [] |} in
+  pret (match history reval s0 (map (fun r => (env_of truth r, pr_lookups r)) runs) with
+        | Ok (s, outs) =>
+            1 :: Z.of_nat (length outs)
+              :: flat_map (fun o =>
+                             (Z.of_nat (length (fst o)) :: flat_map oanswer (fst o))
+                               ++ (Z.of_nat (length (snd o))
+                                     :: flat_map (fun y => [y; if series_daily y then 1 else 0]) (rev (snd o))))
+                          outs
+              ++ flat_map (fun y => match aget y (s_cache s) with
+                                    | Some l => 1 :: odrates l
+                                    | None => [0]
+                                    end) years
+        | Rej _ => [0]
+        | Panic _ => [2]
+        end).
+
+(* entry 1: rows of one file through the application path *)
+Definition pcur : P (option currency) :=
+  t <~ pZ ;;
+  pret (match t with
+        | 0 => None | 1 => Some CAD | 2 => Some USD | _ => Some (OtherCur (Z.to_N t))
+        end).
+Definition prow : P row :=
+  td <~ pZ ;; c <~ pcur ;; fx <~ popt pQ ;; cc <~ pcur ;; cfx <~ popt pQ ;;
+  pret {| r_td := td; r_cur := c; r_fx := fx; r_ccur := cc; r_cfx := cfx |}.
+Definition orow_err (e : row_err) : Z :=
+  match e with
+  | ENoAuto => 1 | EFxWithoutCurr => 2 | ECurrWithoutFx => 3 | ENotPositive => 4 | ECadNotOne => 5
+  end.
+Definition run_rows : P (list Z) :=
+  truth <~ plist pobs ;; today <~ pZ ;; avail <~ pZ ;; rows <~ plist prow ;;
+  let e := {| e_today := today; e_force := false; e_remote := remote_of truth avail |} in
+  pret (match app_rows true e rows with
+        | Ok (inr l) => 1 :: Z.of_nat (length l) :: flat_map (fun x => oQ (fst x) ++ oQ (snd x)) l
+        | Ok (inl (RRate c err)) => [0; 0; if c then 1 else 0; olerr err]
+        | Ok (inl (RRow c err)) => [0; 1; if c then 1 else 0; orow_err err]
+        | Rej _ => [3]
+        | Panic _ => [2]
+        end).
+
+(* entry 2: calendar *)
+Definition run_dates : P (list Z) :=
+  days <~ plist pZ ;;
+  pret (flat_map (fun d => let '(y, m, dd) := civil d in [year_of d; y; m; dd]) days).
+
+(* entry 3: the cache reader on a file content *)
+Definition pbytes : P bytes := l <~ plist pZ ;; pret (map Z.to_N l).
+Definition obytes (b : bytes) : list Z := Z.of_nat (length b) :: map Z.of_N b.
+Definition run_parsecsv : P (list Z) :=
+  c <~ pbytes ;; pret (odrates (parse_csv c)).
+
+(* entry 4: crash states of a write procedure *)
+Definition prow_t : P row_t := d <~ pZ ;; m <~ pZ ;; s <~ pnat ;; pret (d, (m, s)).
+Definition oobytes (o : option bytes) : list Z :=
+  match o with Some b => 1 :: obytes b | None => [0] end.
+Definition run_crash : P (list Z) :=
+  kind <~ pZ ;; old <~ popt (plist prow_t) ;; tmp <~ popt pbytes ;; new <~ plist prow_t ;;
+  n <~ pnat ;; cut <~ pnat ;;
+  let proc := if kind =? 0 then inplace_proc new else rename_proc new in
+  let '(live, t) := crash_at proc (fs_of old tmp) n cut in
+  pret (Z.of_nat (length proc) :: oobytes live ++ oobytes t).
+
+(* entry 5: rust_decimal division *)
+Definition run_div : P (list Z) :=
+  a <~ pQ ;; b <~ pQ ;;
+  pret (match a_div dec a b with Ok r => 1 :: oQ r | _ => [0] end).
+
+Definition dispatch (l : list Z) : list Z :=
+  match l with
+  | mode :: r =>
+      let p := match mode with
+               | 0 => run_hist
+               | 1 => run_rows
+               | 2 => run_dates
+               | 3 => run_parsecsv
+               | 4 => run_crash
+               | 5 => run_div
+               | _ => fun _ => None
+               end in
+      match p r with
+      | Some (out, []) => 1 :: out
+      | Some (_, _ :: _) => [-1]
+      | None => [-2]
+      end
+  | [] => [-3]
+  end.
